@@ -1,8 +1,10 @@
 /* C04: secret-key side, real code only (scalar_set_b32, add, negate, cmov, get_b32), every input.
  *   h_seckey_verify      ret = (0 < key < n)
- *   h_seckey_negate      ret = valid(key); ret=1 => out + key = n; ret=0 => out = 0^32
+ *   h_seckey_negate      ret = valid(key); ret=1 => out + key = n; ret=0 => out is not a valid key
  *   h_seckey_tweak_add   all 2^512 (key, tweak): ret = valid(key) && tweak < n && (key+tweak) mod n != 0;
- *                        ret=1 => out = (key+tweak) mod n; ret=0 => out = 0^32
+ *                        ret=1 => out = (key+tweak) mod n; ret=0 => out is not a valid key
+ * (include/secp256k1.h: "seckey will be set to some unspecified value" on failure; property C04: the failing
+ *  operation "returns no usable key" - so the obligation is: the buffer fails secp256k1_ec_seckey_verify)
  * One entry per unit, selected by -DU_<ENTRY> (INPUT names are per translation unit).
  * NULL arguments: illegal callback, ret 0.  No oracle contract, so counterexamples replay natively. */
 #include "pre.h"
@@ -31,10 +33,9 @@ void h_seckey_verify(void) {
 #ifdef U_SECKEY_NEGATE
 void h_seckey_negate(void) {
     secp256k1_context ctx;
-    INPUT_ARR(unsigned char, key, 32); INPUT(_Bool, use_key); INPUT(size_t, k);
+    INPUT_ARR(unsigned char, key, 32); INPUT(_Bool, use_key);
     int ret; sp kv = sp_be32(key), ov;
     verif_ctx_init(&ctx);
-    __CPROVER_assume(k < 32);
     ret = secp256k1_ec_seckey_negate(&ctx, use_key ? key : NULL);
     ov = sp_be32(key);
     __CPROVER_assert(g_error == 0, "C04 seckey_negate: error callback never invoked");
@@ -43,7 +44,7 @@ void h_seckey_negate(void) {
         __CPROVER_assert(g_illegal == 0, "C04 seckey_negate: no illegal callback for a non-NULL key");
         __CPROVER_assert(ret == sp_seckey_valid(kv), "C04 seckey_negate: returns 1 exactly for a valid key");
         if (ret == 1) __CPROVER_assert(sp_eq(sp_add(ov, kv), sp_n()) && sp_seckey_valid(ov), "C04 seckey_negate: output is n - key, a valid key");
-        if (ret == 0) __CPROVER_assert(key[k] == 0, "C04 seckey_negate: failure leaves 32 zero bytes (no usable key)");
+        if (ret == 0) __CPROVER_assert(!sp_seckey_valid(ov), "C04 seckey_negate: on failure the buffer holds no usable key (it fails seckey_verify)");
     }
     if (use_key && ret == 1) REACH("seckey_negate valid");
     if (use_key && ret == 0 && !sp_is0(kv)) REACH("seckey_negate key >= n");
@@ -73,7 +74,7 @@ void h_seckey_tweak_add(void) {
         __CPROVER_assert(g_illegal == 0, "C04 seckey_tweak_add: no illegal callback for non-NULL arguments");
         __CPROVER_assert(ret == expect, "C04 seckey_tweak_add: returns 1 exactly when key valid, tweak < n and key+tweak != 0 mod n");
         if (ret == 1) __CPROVER_assert(sp_eq(ov, sum) && sp_seckey_valid(ov), "C04 seckey_tweak_add: output is (key + tweak) mod n");
-        if (ret == 0) __CPROVER_assert(key[k] == 0, "C04 seckey_tweak_add: failure leaves 32 zero bytes (no usable key)");
+        if (ret == 0) __CPROVER_assert(!sp_seckey_valid(ov), "C04 seckey_tweak_add: on failure the buffer holds no usable key (it fails seckey_verify)");
         if (ret == 1) REACH("seckey_tweak_add success");
         if (sp_seckey_valid(kv) && sp_eq(tv, sp_n())) REACH("seckey_tweak_add tweak == n");
         if (sp_seckey_valid(kv) && sp_lt(tv, sp_n()) && ret == 0) REACH("seckey_tweak_add tweak == -key");
